@@ -468,6 +468,22 @@ func buildPlans(thorough bool) []plan {
 		}
 	}
 
+	// 4f. the client drops the connection while a handler call waits for the cancellation of its context:
+	// the write loop notices at the second keep-alive write after the drop (30 s); slow cases
+	for _, p := range protos {
+		st := startType(p)
+		init := msg("init", 0, "none", "")
+		g1 := msg(st, 2, "doc", "query")
+		g2 := msg(st, 7, "doc", "sub")
+		for _, sc := range []Script{
+			{Proto: p, Labels: []Label{init}, Gate: &g1, GateCtx: true, GateDrop: true, End: "drop"},
+			{Proto: p, Labels: []Label{init, msg(st, 1, "doc", "sub")}, Gate: &g2, GateCtx: true, GateDrop: true, End: "drop"},
+		} {
+			sc := sc
+			plans = append(plans, plan{mode: "gatectx", slow: true, make: func(*rng.R) Script { return sc }})
+		}
+	}
+
 	// 5. keep-alive periods: the conversation waits 15 s (+ margin) per tick label, so these few run
 	// beside the worker pool from the start and are handed out last
 	for _, p := range protos {
